@@ -604,7 +604,7 @@ pub fn apply_c02(sim: &mut Sim, spec: &WorldSpec, op: &COp) -> &'static str {
 			r
 		},
 		COp::Base(o) => match o {
-			Op::Claim { .. } | Op::FailBack { .. } | Op::Events { .. } | Op::Forwards { .. } | Op::Disconnect { .. } | Op::Reconnect { .. } | Op::Timer { .. } | Op::ForceClose { .. } => apply(sim, spec, o),
+			Op::Claim { .. } | Op::FailBack { .. } | Op::Events { .. } | Op::Forwards { .. } | Op::DecodeAdds { .. } | Op::Disconnect { .. } | Op::Reconnect { .. } | Op::Timer { .. } | Op::ForceClose { .. } => apply(sim, spec, o),
 			_ => "base-op-not-in-profile",
 		},
 		COp::Deliver { link, k } => {
